@@ -989,6 +989,10 @@ def _parse(
                 block = _Statement(suffix, line)
             elif operator == "autoescape":
                 fn: str | None = suffix.strip()
+                if not fn:
+                    # An empty name would generate "_tt_utf8((_tt_tmp))",
+                    # silently disabling escaping for the whole file.
+                    reader.raise_parse_error("autoescape missing function name")
                 if fn == "None":
                     fn = None
                 template.autoescape = fn
